@@ -69,6 +69,8 @@ var deanchored = []string{
 	"(*" + modulePath + "/internal/server.HealthCheck).reportResult",
 	"(*" + modulePath + "/internal/server.LoadBalancer).nextTarget",
 	"(*" + modulePath + "/internal/server.LoadBalancer).beginHealthChecks",
+	"(*" + modulePath + "/internal/server.Service).shouldRedirectToHTTPS",
+	"(*" + modulePath + "/internal/server.Service).redirectToHTTPS",
 }
 
 // inlineSeq numbers expansions across all rounds of one run (labels and temporaries must stay unique when a later round
